@@ -284,6 +284,20 @@ pub fn c11_large(alg: Algorithm, inp: &LargeInput) -> Exact {
         })
         .map_err(|p| format!("panic: {}", p))?;
         validate_ops(&ops, old, 0..n, new, 0..m, exact).map_err(|e| format!("capture_diff: {}", e))?;
+        // the text-diff path (integer mapping above 100 tokens)
+        let so: Vec<String> = old.iter().map(|x| format!("{}\n", x)).collect();
+        let sn: Vec<String> = new.iter().map(|x| format!("{}\n", x)).collect();
+        let ro: Vec<&str> = so.iter().map(|s| s.as_str()).collect();
+        let rn: Vec<&str> = sn.iter().map(|s| s.as_str()).collect();
+        let tops = subject(|| {
+            similar::verif::take_swaps();
+            similar::verif::set_swap_repair(repair);
+            let ops = TextDiff::configure().algorithm(alg).diff_slices(&ro, &rn).ops().to_vec();
+            swaps += similar::verif::take_swaps();
+            ops
+        })
+        .map_err(|p| format!("TextDiff: panic: {}", p))?;
+        validate_ops(&tops, old, 0..n, new, 0..m, exact).map_err(|e| format!("TextDiff::ops: {}", e))?;
         Ok((ops, swaps))
     };
     match run(false, true) {
